@@ -224,7 +224,7 @@ STR_METHODS = {"upper", "lower", "startswith", "endswith", "count", "strip", "ls
                "find", "rfind", "index", "split", "rsplit", "swapcase", "casefold", "isidentifier", "removesuffix",
                "removeprefix", "partition", "rpartition", "zfill", "format", "isspace", "splitlines", "encode"}
 TYPES = {"str": str, "dict": dict, "list": list, "tuple": tuple, "int": int, "float": float, "bool": bool,
-         "set": set}
+         "set": set, "frozenset": frozenset}
 PY_EXC = {"UnboundLocalError": UnboundLocalError, "NameError": NameError, "ValueError": ValueError, "KeyError": KeyError, "IndexError": IndexError, "TypeError": TypeError,
           "AttributeError": AttributeError, "Exception": Exception}
 _SELF = object()
@@ -1052,6 +1052,8 @@ class Interp:
             return dict(self.iterate(args[0]))
         if t is set:
             return set(self.iterate(args[0])) if args else set()
+        if t is frozenset:
+            return frozenset(self.iterate(args[0])) if args else frozenset()
         raise LexUnknown(f"constructor {t}")
 
     def builtin(self, name, args, kwargs):
